@@ -87,9 +87,12 @@ def ref_apply(L, rec, mod, grad_mode=None, contiguous=False, flip_rg=False):
         base, x = make_tensor(rec["op"]["arg"])
         if contiguous:
             x = x.contiguous().clone()
+        leaf = x
         if bool(rec["op"].get("requires_grad")) != bool(flip_rg):
             x.requires_grad_(True)
-        leaves = [x] if x.requires_grad else []
+            if rec["op"].get("nonleaf"):
+                x = leaf * 1.0
+        leaves = [leaf] if leaf.requires_grad else []
         oc, val = _run(lambda: call_with_mode(torch, lambda: mod(x), gm))
     else:
         low, highs, leaves = thaw_pyramid(rec["pyr"])
@@ -265,8 +268,9 @@ def check_backward(w, rec, st, how):
                         "forward offers nothing differentiable")
         return
     outs, cots, inputs = sel
-    oc2, g = _run(lambda: torch.autograd.grad(outs, inputs, cots, retain_graph=False,
-                                              allow_unused=True))
+    cg = bool(rec["op"].get("create_graph"))
+    oc2, g = _run(lambda: torch.autograd.grad(outs, inputs, cots, retain_graph=cg,
+                                              create_graph=cg, allow_unused=True))
     ref_snap = snap(list(g)) if oc2 == "ok" else None
     w.log(("ref", rec["client"], rec["op_id"], oc2, snap_digest(ref_snap) if ref_snap else ""))
     if rec.get("faulted"):
